@@ -126,7 +126,8 @@ Proof.
   rewrite Hne. unfold update_line_cursor. rewrite Ecl. cbn [p_cursor q1 set_cursor snd].
   replace (l_indent l + line_length l + zlen s - l_indent l1) with (line_length l1) by (rewrite Hi1, Hlen1; lia).
   assert (Hnn : (line_length l1 <? 0) = false) by (apply Z.ltb_ge; rewrite line_length_sum; apply sum_len_nonneg).
-  rewrite Hnn. unfold upd_cur_line. cbn [p_cur q1 set_cursor set_plines p_lines]. rewrite Hc, dget_dset_same.
+  rewrite Hnn. cbv iota. rewrite Ecl, Z.sub_diag. change (0 <? 0) with false. cbv iota.
+  unfold upd_cur_line. cbn [p_cur q1 set_cursor set_plines p_lines]. rewrite Hc, dget_dset_same.
   destruct (line_set_cursor_end l1 He1) as (He2 & Ht2 & Hi2 & Hr2 & Hl2).
   subst q1. cbn [p_cur p_lines p_cursor set_plines set_cursor].
   split.
@@ -177,13 +178,20 @@ Proof. intros H. apply upd_cur_text_ready; [intros; split; reflexivity|exact H].
 
 Lemma p_style_upd_cur_line p f : p_style (upd_cur_line p f) = p_style p.
 Proof. unfold upd_cur_line. destruct (p_cur p); [destruct (dget _ _)|]; reflexivity. Qed.
+Lemma p_style_update_line_cursor q : p_style (update_line_cursor q) = p_style q.
+Proof.
+  unfold update_line_cursor. rewrite p_style_upd_cur_line.
+  set (q1 := if _ <? 0 then _ else q).
+  assert (E1 : p_style q1 = p_style q) by (unfold q1; destruct (_ <? 0); [apply p_style_upd_cur_line|reflexivity]).
+  clearbody q1. destruct (0 <? _); [rewrite p_style_upd_cur_line|]; exact E1.
+Qed.
 Lemma p_style_append a w : p_style (append_text a w) = p_style a.
 Proof.
   unfold append_text, indent_cursor.
   set (q := upd_cur_line a _). assert (Eq : p_style q = p_style a) by apply p_style_upd_cur_line. clearbody q.
   set (q1 := set_cursor q _). assert (E1 : p_style q1 = p_style a) by exact Eq. clearbody q1.
   destruct (line_is_empty _); [now rewrite p_style_upd_cur_line|].
-  unfold update_line_cursor. rewrite p_style_upd_cur_line. destruct (_ <? 0); [now rewrite p_style_upd_cur_line|exact E1].
+  now rewrite p_style_update_line_cursor.
 Qed.
 (* the caption characters are written to, by style *)
 Definition target (c : ctx) : option para := if c_style c =? sPopOn then Some (c_buf c) else c_act c.
@@ -212,8 +220,8 @@ Proof.
     assert (E0 : match c_act c with None => paint_on_active_caption c (c_tc c) | Some _ => c end = c) by now rewrite Ha.
     rewrite E0.
     assert (E1 : match c_act c with Some a0 => p_style a0 =? sPaintOn | None => false end = true) by (rewrite Ha, Hpa; reflexivity).
-    assert (E2 : match c_act (upd_act c (fun a0 => append_text a0 word)) with Some a0 => p_style a0 =? sPaintOn | None => false end = true).
-    { unfold upd_act. rewrite Ha. cbn [c_act with_act]. rewrite p_style_append, Hpa. reflexivity. }
+    assert (E2 : match c_act (upd_act c (fun a0 => style_cur_text c (append_text a0 word))) with Some a0 => p_style a0 =? sPaintOn | None => false end = true).
+    { unfold upd_act. rewrite Ha. cbn [c_act with_act]. unfold style_cur_text, upd_cur_text. rewrite p_style_upd_cur_line, p_style_append, Hpa. reflexivity. }
     rewrite E1, E2. cbn [negb]. rewrite Ha.
     assert (Hfin : forall f : para -> para, (row_ready (f a) /\ row_text (f a) = row_text a ++ word) ->
               match (if c_style (upd_act (upd_act c f) (style_cur_text (upd_act c f))) =? sPopOn
@@ -231,11 +239,12 @@ Proof.
     + apply Hfin. destruct (new_caption_text_ready a Hr) as [H1 H2]. destruct (append_text_ready _ word H1 Hw) as [H3 H4].
       destruct (set_begin_cur_ready _ (c_tc c) H3) as [H5 H6]. split; [exact H5|]. rewrite H6, H4, H2. reflexivity.
     + destruct (ends_with_space word).
-      * assert (Ecomp : upd_act (upd_act c (fun a0 => append_text a0 word))
+      * assert (Ecomp : upd_act (upd_act c (fun a0 => style_cur_text c (append_text a0 word)))
                                (fun a0 => upd_cur_text (new_caption_text a0) (fun x => text_set_begin x (c_tc c))) =
-                        upd_act c (fun a0 => upd_cur_text (new_caption_text (append_text a0 word)) (fun x => text_set_begin x (c_tc c)))).
+                        upd_act c (fun a0 => upd_cur_text (new_caption_text (style_cur_text c (append_text a0 word))) (fun x => text_set_begin x (c_tc c)))).
         { unfold upd_act. rewrite Ha. cbn [c_act with_act]. destruct c; reflexivity. }
-        rewrite Ecomp. apply Hfin. destruct (append_text_ready a word Hr Hw) as [H1 H2].
+        rewrite Ecomp. apply Hfin. destruct (append_text_ready a word Hr Hw) as [H1' H2'].
+        destruct (style_cur_text_ready c _ H1') as [H1 H2s]. assert (H2 : row_text (style_cur_text c (append_text a word)) = row_text a ++ word) by (rewrite H2s; exact H2').
         destruct (new_caption_text_ready _ H1) as [H3 H4]. destruct (set_begin_cur_ready _ (c_tc c) H3) as [H5 H6].
         split; [exact H5|]. rewrite H6, H4, H2. reflexivity.
       * apply Hfin. apply append_text_ready; assumption.
@@ -294,7 +303,8 @@ Proof.
   unfold update_line_cursor. rewrite Ecl, Hcur. cbn [snd].
   replace (l_indent l + line_length l - l_indent l) with (line_length l) by lia.
   assert (Hnn : (line_length l <? 0) = false) by (apply Z.ltb_ge; rewrite line_length_sum; apply sum_len_nonneg).
-  rewrite Hnn. unfold upd_cur_line. rewrite Hc, Hg.
+  rewrite Hnn. cbv iota. rewrite Ecl, Z.sub_diag. change (0 <? 0) with false. cbv iota.
+  unfold upd_cur_line. rewrite Hc, Hg.
   destruct (line_set_cursor_total l ts t Ets) as (He2 & Ht2 & Hi2 & Hr2 & Hl2).
   split.
   - exists r, (line_set_cursor l (line_length l)). split; [exact Hc|]. split; [apply dget_dset_same|]. split; [exact He2|].
@@ -362,8 +372,7 @@ Proof.
   clearbody p1. set (p2 := set_cursor p1 _). assert (E2 : p_style p2 = p_style p) by exact E1. clearbody p2.
   set (p3 := match dget row (p_lines p2) with None => _ | Some _ => p2 end).
   assert (E3 : p_style p3 = p_style p). { unfold p3. destruct (dget row _); [exact E2|]. unfold new_caption_line. destruct (p_cursor p2). exact E2. }
-  clearbody p3. destruct (ind =? -1); [exact E3|]. unfold update_line_cursor. rewrite p_style_upd_cur_line.
-  destruct (_ <? 0); [rewrite p_style_upd_cur_line|]; exact E3.
+  clearbody p3. destruct (ind =? -1); [exact E3|]. rewrite p_style_update_line_cursor. exact E3.
 Qed.
 Lemma p_style_para_backspace p : p_style (para_backspace p) = p_style p.
 Proof. unfold para_backspace. rewrite p_style_set_cursor_at. unfold upd_cur_text. apply p_style_upd_cur_line. Qed.
